@@ -6,9 +6,11 @@ import (
 	"fmt"
 	"math/big"
 	"math/rand/v2"
+	"runtime/debug"
 	"sort"
 	"strings"
 
+	rpcfilters "github.com/EscanBE/evermint/v12/rpc/namespaces/ethereum/eth/filters"
 	evmtypes "github.com/EscanBE/evermint/v12/x/evm/types"
 	abci "github.com/cometbft/cometbft/abci/types"
 	sdkdb "github.com/cosmos/cosmos-db"
@@ -17,6 +19,7 @@ import (
 	txtypes "github.com/cosmos/cosmos-sdk/types/tx"
 	"github.com/cosmos/gogoproto/proto"
 	"github.com/ethereum/go-ethereum/common"
+	ethtypes "github.com/ethereum/go-ethereum/core/types"
 )
 
 // ---- adversarial op kinds ---------------------------------------------------------------------------
@@ -28,6 +31,7 @@ func init() {
 	opHandlers["query"] = opQueryFuzz
 	opHandlers["live"] = opLiveness
 	opHandlers["pcfuzz"] = opPrecompileFuzz
+	opHandlers["flogs"] = opFilterLogs
 }
 
 // opMutate: byte-level mutation of a freshly built valid tx (Ref selects the recipe, Hex the mutation program).
@@ -274,6 +278,57 @@ func (w *World) precompileSelectors(addr common.Address) [][]byte {
 	return out
 }
 
+// opFilterLogs: the log-filter criteria of eth_getLogs / eth_newFilter / eth_subscribe(logs) are user input; they are
+// applied (by the JSON-RPC goroutines, which recover nothing) to every log of the chain, whatever its topic count.
+func opFilterLogs(w *World, op *Op) {
+	var logs []*ethtypes.Log
+	for _, rec := range w.C.Records {
+		if rec.Res == nil {
+			continue
+		}
+		for _, t := range ParseBlock(rec) {
+			if t.HasReceipt && t.Rc.Receipt != nil {
+				for _, l := range t.Rc.Receipt.Logs {
+					c := *l
+					c.BlockNumber = uint64(rec.Height)
+					logs = append(logs, &c)
+				}
+			}
+		}
+	}
+	// anonymous and short logs always exist on a real chain
+	logs = append(logs, &ethtypes.Log{Address: common.HexToAddress("0x01"), BlockNumber: 1}, &ethtypes.Log{Address: common.HexToAddress("0x02"), Topics: []common.Hash{{1}}, BlockNumber: 2})
+	prog, _ := hex.DecodeString(op.Hex)
+	var topics [][]common.Hash
+	var addrs []common.Address
+	for i := 0; i+1 < len(prog) && len(topics) < 5; i += 2 {
+		switch prog[i] % 4 {
+		case 0:
+			topics = append(topics, nil) // wildcard
+		case 1:
+			topics = append(topics, []common.Hash{common.BigToHash(big.NewInt(int64(prog[i+1] % 4)))})
+		case 2:
+			topics = append(topics, []common.Hash{common.BigToHash(big.NewInt(0xabc)), common.BigToHash(big.NewInt(int64(prog[i+1])))})
+		case 3:
+			addrs = append(addrs, GenesisContractAddr(int(prog[i+1])%len(TemplateNames)))
+		}
+	}
+	var from, to *big.Int
+	if op.Ref%3 == 1 {
+		from, to = big.NewInt(int64(op.Ref%5)), big.NewInt(int64(op.Ref%7))
+	}
+	w.R.Count("o:filter_logs_fuzz")
+	func() {
+		defer func() {
+			if x := recover(); x != nil {
+				pi := &PanicInfo{Phase: "FilterLogs", Value: fmt.Sprint(x), Stack: string(debug.Stack())}
+				w.R.Violate("C20", "rpc_panic", map[string]string{"where": "FilterLogs", "site": panicSite(pi)}, "applying the log filter %d topic positions / %d addresses to %d logs panicked: %v", len(topics), len(addrs), len(logs), x)
+			}
+		}()
+		_ = rpcfilters.FilterLogs(logs, from, to, addrs, topics)
+	}()
+}
+
 // opLiveness: bounded liveness after faults — a fresh valid transfer must execute within 3 blocks.
 func opLiveness(w *World, op *Op) {
 	if w.C.Halted {
@@ -361,6 +416,8 @@ func genAdversarialOp(rng *rand.Rand, g *GenesisSpec) Op {
 			Mut: pick(rng, "zero_msgs", "zero_msgs_eth_ext", "unknown_type_url", "known_url_garbage_value", "many_eth_msgs", "no_auth_info", "empty", "huge_memo", "zero_gas")}
 	case k < 82:
 		return Op{K: "pcfuzz", W: w, Via: via, Ref: rng.IntN(8), Typ: rng.IntN(4), Hex: randHex(rng, 1+rng.IntN(4)*32+rng.IntN(3)), Val: pick(rng, "0", "0", "1")}
+	case k < 86:
+		return Op{K: "flogs", Hex: randHex(rng, 2*(1+rng.IntN(5))), Ref: rng.IntN(20)}
 	case k < 92:
 		return Op{K: "query", To: queryPaths[rng.IntN(len(queryPaths))], Hex: randHex(rng, rng.IntN(100)), Ref: rng.IntN(4), Typ: rng.IntN(2)}
 	default:
